@@ -26,8 +26,10 @@ type Verdict struct {
 	Case     string
 }
 
-// Start starts a watchdog that calls onHang (once) when the counter has not moved for `window`
-// twice in a row; onHang is expected to record the verdict and end the process.
+// Start starts a watchdog that calls onHang when the counter has not moved for `window` twice in a
+// row. With v.Deadlock set (two goroutine dumps show workload goroutines parked below ebu frames and
+// none runnable) onHang is expected to record the violation and end the process; otherwise the
+// machine is merely slow: onHang should only count it, and the watchdog keeps watching.
 func Start(window time.Duration, onHang func(Verdict)) *Dog {
 	d := &Dog{stop: make(chan struct{})}
 	d.current.Store("")
@@ -55,7 +57,11 @@ func Start(window time.Duration, onHang func(Verdict)) *Dog {
 					v := Verdict{Dump: d2, Case: d.current.Load().(string)}
 					v.Deadlock = d.progress.Load() == cur && blockedUnderEbu(d1) && blockedUnderEbu(d2)
 					onHang(v)
-					return
+					if v.Deadlock {
+						return
+					}
+					// not a deadlock by the dump rule (slow machine, runnable goroutines): keep watching
+					still = 0
 				}
 			}
 		}
